@@ -1,1 +1,114 @@
-fn main() {}
+//! Bed B helper around the real generator.
+//!
+//!   genrun gen <ir.json> <outdir> [--exhaustive] [--serialize-empty] [--strip-prefix P] [--crate NAME VERSION] [--version V]
+//!       runs conjure_codegen's *library* entry point; prints one JSON line {"status": "ok"|"error"|"panic", "message": ...}
+//!   genrun attrs <dir>
+//!       parses every generated .rs file below <dir> with syn and prints, as JSON, each
+//!       `#[conjure_endpoints]` trait with its endpoints and the attributes of every argument
+//!       (kind, safe?, log_as, name, decoder) -- the observation point of C08 and C19.
+//!   genrun items <dir>
+//!       lists the public items (structs, enums, traits, type aliases) per file -- used to check
+//!       that every declared type is exposed under its package module.
+mod attrs;
+
+use std::panic;
+use std::path::PathBuf;
+
+fn main() {
+    let args: Vec<String> = std::env::args().collect();
+    match args.get(1).map(|s| s.as_str()) {
+        Some("gen") => gen(&args[2..]),
+        Some("attrs") => attrs::attrs(&PathBuf::from(&args[2])),
+        Some("items") => attrs::items(&PathBuf::from(&args[2])),
+        Some("safe-batch") => safe_batch(&args[2..]),
+        _ => {
+            eprintln!("usage: genrun gen|attrs|items ...");
+            std::process::exit(2);
+        }
+    }
+}
+
+fn gen(args: &[String]) {
+    let ir = PathBuf::from(&args[0]);
+    let out = PathBuf::from(&args[1]);
+    let mut config = conjure_codegen::Config::new();
+    let mut i = 2;
+    while i < args.len() {
+        match args[i].as_str() {
+            "--exhaustive" => {
+                config.exhaustive(true);
+            }
+            "--serialize-empty" => {
+                config.serialize_empty_collections(true);
+            }
+            "--strip-prefix" => {
+                config.strip_prefix(args[i + 1].clone());
+                i += 1;
+            }
+            "--version" => {
+                config.version(args[i + 1].clone());
+                i += 1;
+            }
+            "--crate" => {
+                config.build_crate(&args[i + 1], &args[i + 2]);
+                i += 2;
+            }
+            other => {
+                eprintln!("unknown flag {}", other);
+                std::process::exit(2);
+            }
+        }
+        i += 1;
+    }
+    panic::set_hook(Box::new(|_| {}));
+    let r = panic::catch_unwind(panic::AssertUnwindSafe(|| config.generate_files(&ir, &out)));
+    let line = match r {
+        Ok(Ok(())) => serde_json::json!({"status": "ok"}),
+        Ok(Err(e)) => serde_json::json!({"status": "error", "message": format!("{:?}", e)}),
+        Err(p) => {
+            let msg = p.downcast_ref::<&str>().map(|s| s.to_string()).or_else(|| p.downcast_ref::<String>().cloned()).unwrap_or_default();
+            serde_json::json!({"status": "panic", "message": msg})
+        }
+    };
+    println!("{}", line);
+}
+
+/// `genrun safe-batch <listfile> <scratch-dir> [gen flags...]`: for every IR path listed, runs the
+/// generator and reports which arguments of which server trait carry `safe` (one JSON line each).
+fn safe_batch(args: &[String]) {
+    let list = std::fs::read_to_string(&args[0]).expect("list file");
+    let scratch = PathBuf::from(&args[1]);
+    panic::set_hook(Box::new(|_| {}));
+    for (i, line) in list.lines().enumerate() {
+        let ir = PathBuf::from(line.trim());
+        let out = scratch.join(format!("o{}", i));
+        let _ = std::fs::remove_dir_all(&out);
+        let mut config = conjure_codegen::Config::new();
+        config.strip_prefix("com.verif".to_string());
+        let r = panic::catch_unwind(panic::AssertUnwindSafe(|| config.generate_files(&ir, &out)));
+        let v = match r {
+            Ok(Ok(())) => {
+                let a = attrs::attrs_value(&out);
+                let mut safe = serde_json::Map::new();
+                if let Some(traits) = a["traits"].as_array() {
+                    for t in traits {
+                        for e in t["endpoints"].as_array().unwrap() {
+                            for arg in e["args"].as_array().unwrap() {
+                                if ["path", "query", "header", "body"].contains(&arg["kind"].as_str().unwrap_or("")) {
+                                    let declared = arg.get("log_as").and_then(|v| v.as_str()).unwrap_or_else(|| arg["ident"].as_str().unwrap());
+                                    let key = format!("{}|{}|{}", t["trait"].as_str().unwrap(), e["endpoint"]["name"].as_str().unwrap_or("?"), declared);
+                                    safe.insert(key, arg["safe"].clone());
+                                }
+                            }
+                        }
+                    }
+                }
+                serde_json::json!({"ir": line.trim(), "status": a["status"], "safe": safe})
+            }
+            Ok(Err(e)) => serde_json::json!({"ir": line.trim(), "status": "error", "message": format!("{:?}", e)}),
+            Err(_) => serde_json::json!({"ir": line.trim(), "status": "panic"}),
+        };
+        println!("{}", v);
+        let _ = std::fs::remove_dir_all(&out);
+    }
+}
